@@ -285,7 +285,7 @@ def fresh(node):
     return ast.parse(ast.unparse(node)).body[0]
 
 
-def mutants_of(fn_node, ops):
+def mutants_of(fn_node, ops, site_ok=None):
     """yield (description, mutated copy) for the generic operators named in ops"""
     base_src = ast.unparse(fn_node)
     n_nodes = len(list(ast.walk(fresh(fn_node))))
@@ -313,6 +313,8 @@ def mutants_of(fn_node, ops):
                                 return True
                 return False
 
+            if site_ok is not None and not site_ok(opn, n, par):
+                continue
             if opn == "drop*2" and isinstance(n, ast.BinOp) and isinstance(n.op, ast.Mult):
                 for a, b in ((n.left, n.right), (n.right, n.left)):
                     if isinstance(b, ast.Constant) and b.value == 2:
@@ -344,6 +346,12 @@ def mutants_of(fn_node, ops):
                 desc = "delete the statement %s" % ast.unparse(n)[:60]
                 replace(n, ast.Pass())
             elif opn == "del-subscript-store" and isinstance(n, ast.Assign) and any(isinstance(t_, ast.Subscript) for t_ in n.targets):
+                desc = "delete the statement %s" % ast.unparse(n)[:60]
+                replace(n, ast.Pass())
+            elif opn == "aug->sub" and isinstance(n, ast.AugAssign) and isinstance(n.op, ast.Add):
+                desc = "+= -> -= in %s" % ast.unparse(n)
+                n.op = ast.Sub()
+            elif opn == "del-attr-assign" and isinstance(n, ast.Assign) and any(isinstance(t_, ast.Attribute) for t_ in n.targets):
                 desc = "delete the statement %s" % ast.unparse(n)[:60]
                 replace(n, ast.Pass())
             elif opn == "end<->start" and isinstance(n, ast.Attribute) and n.attr in ("get_end", "end"):
@@ -390,16 +398,16 @@ class patched:
         self.func.node = self.old
 
 
-def adequacy(ctx, label, func, core, mutant_ops, benign, allow_survivors=()):
+def adequacy(ctx, label, func, core, mutant_ops, benign, allow_survivors=(), site_ok=None):
     """core(sink) runs the rule core; it must fire on every mutant of `func` and stay at the
     baseline on every benign variant."""
     base = Sink()
     core(base)
     base_keys = {(r, i) for r, i, m in base.failed}
     base_full = set(base.failed)
-    killed = total = 0
+    killed = total = refused = 0
     survivors = []
-    for desc, node in mutants_of(func.node, mutant_ops):
+    for desc, node in mutants_of(func.node, mutant_ops, site_ok):
         total += 1
         s = Sink()
         try:
@@ -408,6 +416,7 @@ def adequacy(ctx, label, func, core, mutant_ops, benign, allow_survivors=()):
             fired = bool(set(s.failed) - base_full)
         except AnalysisError:
             fired = True   # the rule refuses the mutated shape (exit 2), it does not pass it
+            refused += 1
         if fired:
             killed += 1
         else:
@@ -427,7 +436,7 @@ def adequacy(ctx, label, func, core, mutant_ops, benign, allow_survivors=()):
     ctx.extra["mutants_killed"] = ctx.extra.get("mutants_killed", 0) + killed
     ctx.extra["benign_total"] = ctx.extra.get("benign_total", 0) + btotal
     ctx.extra["benign_silent"] = ctx.extra.get("benign_silent", 0) + silent
-    ctx.extra.setdefault("mutation_detail", {})[label] = dict(total=total, killed=killed, benign=btotal, silent=silent,
+    ctx.extra.setdefault("mutation_detail", {})[label] = dict(total=total, killed=killed, refused_as_analysis_error=refused, benign=btotal, silent=silent,
                                                               survivors=survivors, allowed_survivors=list(allow_survivors))
     real = [s for s in survivors if not any(a in s for a in allow_survivors)]
     if real:
@@ -439,13 +448,26 @@ def adequacy(ctx, label, func, core, mutant_ops, benign, allow_survivors=()):
 
 def _mutation_adequacy(ctx, repo, folder, dx, ma, dn, bb_cls):
     flow_ops = sorted(dalvik.FLOW_OPS) + [0x00, 0x26, 0x2D, 0x3E, 0x12]
+    opvars = {t.id for n in ast.walk(dn.node) if isinstance(n, ast.Assign) and isinstance(n.value, ast.Call)
+              and isinstance(n.value.func, ast.Attribute) and n.value.func.attr == "get_op_value"
+              for t in n.targets if isinstance(t, ast.Name)}
+
+    def dn_site(opn, n, par):
+        # comparison constants are mutated only in the opcode dispatch; other comparisons of determineNext
+        # guard the alignment warning (logging) and are equivalent under mutation
+        if opn == "const+1":
+            p = par.get(id(n))
+            while p is not None and not isinstance(p, (ast.Compare, ast.stmt)):
+                p = par.get(id(p))
+            if isinstance(p, ast.Compare):
+                return any(isinstance(x, ast.Name) and x.id in opvars for x in ast.walk(p))
+        return True
     adequacy(ctx, "determineNext", dn,
              lambda s: check_determine_next(s, repo, folder, dn, ops=flow_ops + [0x0D, 0x12, 0x2E, 0x31, 0x3F]),
              ["drop*2", "add->sub", "ret-empty", "const+1"],
              [("rename off", rename_local(dn.node, "off", "delta")), ("rename x", rename_local(dn.node, "x", "succ")),
               ("commute + and *", commute_adds(dn.node))],
-             # the alignment arithmetic only feeds the (known) padded payload address; % 4 -> % 5 keeps that finding as it is
-             allow_survivors=())
+             site_ok=dn_site)
     sc = bb_cls.lookup("set_childs")
     adequacy(ctx, "set_childs", sc, lambda s: check_set_childs(s, repo, folder, bb_cls),
              ["const+1", "negate-if", "swap-tuple", "del-call-stmt", "add->sub", "end<->start"],
